@@ -12,7 +12,16 @@
 (***************************************************************************)
 EXTENDS Naturals, Integers, FiniteSets, FiniteSetsExt, Sequences, TLC
 
+\* symmetric difference.  XorD is the definition; Xor has a Java module override (spec/java/GF2.java:
+\* linear merge of the sorted element vectors) that MC_GF2 compares with XorD.
+XorD(a, b) == (a \ b) \cup (b \ a)
 Xor(a, b) == (a \ b) \cup (b \ a)
+\* least / greatest element of a non-empty set of integers (FiniteSetsExt!Min/Max are quadratic
+\* CHOOSE definitions); Java override: first / last element of the normalized set.
+SetMinD(S) == CHOOSE x \in S : \A y \in S : x <= y
+SetMaxD(S) == CHOOSE x \in S : \A y \in S : x >= y
+SetMin(S) == FoldSet(LAMBDA x, acc : IF x < acc THEN x ELSE acc, CHOOSE x \in S : TRUE, S)
+SetMax(S) == FoldSet(LAMBDA x, acc : IF x > acc THEN x ELSE acc, CHOOSE x \in S : TRUE, S)
 
 \* TLCEval: force the row function once; a lazy function value would be re-evaluated at every application
 Mat(m, n, r) == [m |-> m, n |-> n, r |-> TLCEval(r)]
@@ -73,8 +82,8 @@ RECURSIVE GJ(_, _, _, _)
 GJ(R, m, r, piv) ==
   LET cand == {i \in r .. m - 1 : R[i] # {}} IN
   IF cand = {} THEN [r |-> R, rank |-> r, piv |-> piv]
-  ELSE LET c    == Min({Min(R[i]) : i \in cand})
-           p    == Min({i \in cand : c \in R[i]})
+  ELSE LET c    == SetMin({SetMin(R[i]) : i \in cand})
+           p    == SetMin({i \in cand : c \in R[i]})
            prow == R[p]
            R2   == TLCEval([i \in 0 .. m - 1 |->
                       IF i = r THEN prow
@@ -89,10 +98,10 @@ PivotCols(A) == Elim(A).piv      \* sequence, strictly increasing = column rank 
 
 RowNZ(A, i) == A.r[i] # {}
 IsREF(A) == /\ \A i \in Rows(A) : ~RowNZ(A, i) => \A j \in Rows(A) : j > i => ~RowNZ(A, j)
-            /\ \A i \in Rows(A) : (i + 1 < A.m /\ RowNZ(A, i + 1)) => Min(A.r[i]) < Min(A.r[i + 1])
+            /\ \A i \in Rows(A) : (i + 1 < A.m /\ RowNZ(A, i + 1)) => SetMin(A.r[i]) < SetMin(A.r[i + 1])
 IsRREF(A) == /\ IsREF(A)
              /\ \A i \in Rows(A) : RowNZ(A, i) =>
-                   \A j \in Rows(A) : j # i => Min(A.r[i]) \notin A.r[j]
+                   \A j \in Rows(A) : j # i => SetMin(A.r[i]) \notin A.r[j]
 RowSpaceEq(A, B) == A.n = B.n /\
    LET EA == Elim(A) EB == Elim(B) IN
      EA.rank = EB.rank /\ \A i \in 0 .. EA.rank - 1 : EA.r[i] = EB.r[i]
